@@ -141,3 +141,14 @@ Print Assumptions C20_v1_pycalver_parse_render.
 Theorem C20_v1_pycalver_parse_render_final : ltac:(let t := type of v1_pycalver_parse_render_final in exact t).
 Proof. exact v1_pycalver_parse_render_final. Qed.
 Print Assumptions C20_v1_pycalver_parse_render_final.
+
+(* ---- the derived {pep440_version} pattern of every mapped legacy version pattern is its systematic conversion ---- *)
+From Coq Require Import Strings.String.
+From BV Require Import Lib.PyStr Lib.StrLit Gen.Tables Proofs.V1MapFacts.
+Local Open Scope string_scope.
+Theorem C20_repo_v1_pep440_mapping_systematic :
+  forallb (fun '(vp, repl) => eqb_str (v1_pep440_of vp) repl) V1_PEP440_MAPPING = true
+  /\ map fst V1_PEP440_MAPPING = lits ["{pycalver}"; "{semver}"; "v{year}{month}{build}{release}"; "{year}{month}{build}{release}";
+                                         "v{year}{build}{release}"; "{year}{build}{release}"].
+Proof. exact repo_v1_pep440_mapping_systematic. Qed.
+Print Assumptions C20_repo_v1_pep440_mapping_systematic.
